@@ -8,6 +8,11 @@ from . import common, space
 from .refmodel import Ref, RefError
 
 
+class ForeignLabel(Exception):
+    """A result of the library names something that is not a label of the
+    axis it should come from: a violation of whatever is being checked."""
+
+
 class Case:
     """One explored state: a boolean table with labels attached."""
 
@@ -102,10 +107,16 @@ class Case:
         return tuple(self.props[j] for j in sorted(positions))
 
     def opos(self, labels):
-        return tuple(self._opos[l] for l in labels)
+        try:
+            return tuple(self._opos[l] for l in labels)
+        except (KeyError, TypeError):
+            raise ForeignLabel(f'{labels!r} are not all objects of the context')
 
     def ppos(self, labels):
-        return tuple(self._ppos[l] for l in labels)
+        try:
+            return tuple(self._ppos[l] for l in labels)
+        except (KeyError, TypeError):
+            raise ForeignLabel(f'{labels!r} are not all properties of the context')
 
     def ident(self, **extra):
         d = {'tag': list(self.tag), 'labeling': self.labeling, 'variant': self.variant,
@@ -207,6 +218,9 @@ def run_shard_generic(shard, tier, prop, check_case, both_labelings=True,
                 raise common.HarnessError(f'{prop}: {e} on {tag}')
             except common.HarnessError:
                 raise
+            except ForeignLabel as e:
+                vs = [common.violation(prop, 'foreign-label', case.ident(),
+                                       'labels of the right axis', str(e))]
             except Exception as e:
                 vs = [common.library_exception(prop, case.ident(), e)]
             ctr['evaluations'] += 1
@@ -263,5 +277,8 @@ def replay_e1(mod, v):
         return mod.check_case(case, ctr)
     except (RefError, common.HarnessError):
         raise
+    except ForeignLabel as e:
+        return [common.violation(mod.ID, 'foreign-label', case.ident(),
+                                 'labels of the right axis', str(e))]
     except Exception as e:
         return [common.library_exception(mod.ID, case.ident(), e)]
